@@ -71,13 +71,15 @@ def k_enc(ctx, cases):
 		s2 = rc_specs[i][0] if rc_specs[i] else 'ValueError'
 		if i1 != s1:
 			ctx.violation('enc', h, f'kmer_to_index({b!r}) = {i1}, base-4 code says {s1}', impl=i1, spec=s1, model=m1)
-		elif m1 != i1:
-			ctx.broke('correspondence enc (kmer_to_index)', f'input {h}: impl={i1} spec={s1} model={m1}')
+		elif m1 != s1:
+			ctx.violation('enc', h, f'kmers.pyx as translated: kmer_to_index({b!r}) = {m1}, base-4 code says {s1} '
+			              f'(the compiled extension returns {i1}: stale build or translator mismatch)', impl=i1, spec=s1, model=m1)
 		if i2 != s2:
 			ctx.violation('enc', h, f'kmer_to_index_rc({b!r}) = {i2}, index of the reverse complement is {s2}',
 			              impl=i2, spec=s2, model=m2)
-		elif m2 != i2:
-			ctx.broke('correspondence enc (kmer_to_index_rc)', f'input {h}: impl={i2} spec={s2} model={m2}')
+		elif m2 != s2:
+			ctx.violation('enc', h, f'kmers.pyx as translated: kmer_to_index_rc({b!r}) = {m2}, index of the reverse '
+			              f'complement is {s2} (the compiled extension returns {i2})', impl=i2, spec=s2, model=m2)
 
 
 def k_dec(ctx, cases):
@@ -113,7 +115,8 @@ def k_dec(ctx, cases):
 			ctx.violation('dec', [idx, k], f'index_to_kmer({idx},{k}) = {r!r}, base-4 digits say {s!r}', impl=r, spec=s, model=m)
 		elif m != r:
 			if inrange:
-				ctx.broke('correspondence dec (index_to_kmer)', f'input {(idx, k)}: impl={r!r} model={m!r}')
+				ctx.violation('dec', [idx, k], f'kmers.pyx as translated: index_to_kmer({idx},{k}) = {m!r}, base-4 digits say '
+				              f'{s!r} (the compiled extension returns {r!r})', impl=r, spec=s, model=m)
 			else:
 				# outside the property's domain only the tie is checked
 				ctx.broke('correspondence dec (index_to_kmer, out-of-domain input)', f'input {(idx, k)}: impl={r!r} model={m!r}')
@@ -140,8 +143,9 @@ def k_rc(ctx, cases):
 		s = bytes(ans[2 * i + 1])
 		if r != s:
 			ctx.violation('rc', h, f'revcomp({b!r}) = {r!r}, mirrored complement is {s!r}', impl=r, spec=s, model=m)
-		elif m != r:
-			ctx.broke('correspondence rc (revcomp)', f'input {h}: impl={r!r} model={m!r}')
+		elif m != s:
+			ctx.violation('rc', h, f'kmers.pyx as translated: revcomp({b!r}) = {m!r}, mirrored complement is {s!r} '
+			              f'(the compiled extension returns {r!r})', impl=r, spec=s, model=m)
 
 
 KINDS = {'enc': k_enc, 'dec': k_dec, 'rc': k_rc}
